@@ -189,6 +189,22 @@ func c08Oracle(where string, g *hermes.GlobalVarsMain, l *hermes.WaterSharedVars
 			oracleFail("uptake-below-groundwater %s layer=%d grw=%v tp=%v", where, i+1, g.GRW, tp)
 		}
 	}
+	// what leaves the soil through the surface as evaporation (EVA = ETA - rain, distributed over the layers as EV; FLUSS0 = -EVA)
+	// is at most the actual evaporation ETA: needs a non-negative rain + irrigation amount
+	rain := g.REGEN[g.TAG.Index]
+	if !(rain >= 0 && finite(rain)) {
+		oracleFail("rain-negative-or-not-finite %s regen=%v", where, rain)
+	}
+	sumEV := 0.0
+	for i := 0; i < n; i++ {
+		if !(l.EV[i] >= 0) {
+			oracleFail("ev-negative %s layer=%d ev=%v", where, i+1, l.EV[i])
+		}
+		sumEV += l.EV[i]
+	}
+	if !(sumEV <= math.Max(g.ETA, 0)+1e-12) || !(-g.FLUSS0 <= math.Max(g.ETA, 0)+1e-12) {
+		oracleFail("soil-evaporation-above-actual-evaporation %s sum-ev=%v surface-flux=%v eta=%v verdu=%v regen=%v", where, sumEV, g.FLUSS0, g.ETA, verdu, rain)
+	}
 	if !(g.ETA+sum <= verdu+1e-12) {
 		oracleFail("aet-above-pet %s eta=%v sumtp=%v verdu=%v excess=%g", where, g.ETA, sum, verdu, g.ETA+sum-verdu)
 	}
